@@ -140,6 +140,55 @@ let () =
           Printf.sprintf "%s/%s" (hex_of_str nm) (digest_str c)) !st.f_files))
       end else failwith ("bad store kind " ^ kind));
       Printf.printf "%s %s\n" id (Buffer.contents buf)
+    | id :: "PF" :: hs :: kind :: n :: rest ->
+      (* PF <hashes> <mem|lim<limit>> <n> { <stop> <mthex> <dghex> <sz> <comb> <script> <ks> }*n *)
+      let h = mk_h (parse_hashes hs) in
+      let limit = if kind = "mem" then None
+        else Some (z_of_int (int_of_string (String.sub kind 3 (String.length kind - 3)))) in
+      let buf = Buffer.create 256 in
+      let st = ref [] in
+      let rec steps i rest =
+        if i = 0 then () else
+        match rest with
+        | stop :: mt :: dg :: sz :: comb :: sc :: ks :: rest' ->
+          let d = { d_mt = str_of_hex mt; d_dg = str_of_hex dg; d_sz = z_of_int (int_of_string sz) } in
+          let ks = if ks = "-" then [] else List.map (fun k -> nat_of_int (int_of_string k)) (String.split_on_char ',' ks) in
+          let ((rs, ce), m') = proxy_fetch h limit (stop = "1") !st d (comb = "1") (parse_script sc) ks in
+          st := m';
+          List.iter (fun (bs, e) -> Buffer.add_string buf (Printf.sprintf "r=%s/%s " (digest_str bs) (res_name e))) rs;
+          Buffer.add_string buf (Printf.sprintf "c=%s | " (res_name ce));
+          steps (i - 1) rest'
+        | _ -> failwith "bad PF case" in
+      steps (int_of_string n) rest;
+      let l = List.sort compare (List.map (fun (d, c) ->
+          Printf.sprintf "%s/%s/%d/%s" (hex_of_str d.d_mt) (hex_of_str d.d_dg) (int_of_z d.d_sz) (digest_str c)) !st) in
+      Printf.printf "%s %sB=%s\n" id (Buffer.contents buf) (match l with [] -> "-" | l -> String.concat ";" l)
+    | id :: "CC" :: hs :: "oci" :: n :: rest when int_of_string n <= 3 && List.mem "OBS" rest ->
+      (* concurrent pushes into one OCI layout: is the observed outcome (per-goroutine results,
+         blobs/ listing, files left in ingest/) one of the model's reachable terminal outcomes? *)
+      let h = mk_h (parse_hashes hs) in
+      let n = int_of_string n in
+      let rec threads i rest acc =
+        if i = 0 then (List.rev acc, rest) else
+        match rest with
+        | _ :: mt :: dg :: sz :: comb :: sc :: rest' ->
+          let d = { d_mt = str_of_hex mt; d_dg = str_of_hex dg; d_sz = z_of_int (int_of_string sz) } in
+          let evs = parse_script sc in
+          threads (i - 1) rest' ({ t_d = d; t_evs = evs; t_comb = (comb = "1"); t_fuel = fuel_of evs; t_pc = PStart } :: acc)
+        | _ -> failwith "bad CC case" in
+      let (ts, rest') = threads n rest [] in
+      let observed = match rest' with "OBS" :: o -> String.concat " " o | _ -> failwith "bad CC obs" in
+      let big = nat_of_int (List.fold_left (fun a t -> a + total t.t_evs) 1 ts) in
+      let finals = explore h (nat_of_int (4 * n + 2)) big { c_blobs = []; c_thr = ts } in
+      let show st =
+        let rs = List.map (fun r -> match r with Some r -> res_name r | None -> "RUNNING") (thread_results st) in
+        let bl = List.sort compare (List.map (fun (dg, c) -> Printf.sprintf "%s/%s" (hex_of_str dg) (digest_str c))
+                                      (visible_blobs [] st.c_blobs)) in
+        Printf.sprintf "%s %s I=%d" (String.concat "," rs) (match bl with [] -> "-" | l -> String.concat ";" l)
+          (List.length (ingest_files st)) in
+      let outs = List.sort_uniq compare (List.map show finals) in
+      if List.mem observed outs then Printf.printf "%s MEMBER\n" id
+      else Printf.printf "%s NOT-REACHABLE observed={%s} model={%s}\n" id observed (String.concat " | " outs)
     | id :: ("CC" | "PX") :: _ -> Printf.printf "%s UNJUDGED\n" id
     | [] -> ()
     | _ -> Printf.printf "BADLINE %s\n" l)
